@@ -435,7 +435,7 @@ impl PushPromise {
             src.advance(1);
         }
 
-        if src.len() < 5 {
+        if src.len() < 4 {
             return Err(Error::MalformedMessage);
         }
 
